@@ -290,7 +290,7 @@ def faithOp (toks : List String) : String :=
       | some t =>
         let e := encodeV S t
         let qs := if q == "-" then [] else q.splitOn ","
-        let items := sortStrs (qs.map fun hp => hp ++ ":" ++ showEV (evGet e (splitPath ((unhex hp).getD ""))))
+        let items := (sortStrs qs).map fun hp => hp ++ ":" ++ showEV (evGet e (splitPath ((unhex hp).getD "")))
         "obs shown " ++ (if items.isEmpty then "-" else ",".intercalate items)
   | _, _, _ => "obs bad-op"
 
@@ -317,7 +317,15 @@ def loadHandler : Handler LS where
         match st.result (ty, id) with
         | some o =>
           let qs := if q == "-" then [] else q.splitOn ","
-          let items := sortStrs (qs.map fun hp => hp ++ ":" ++ ((o.lookup hp).getD "absent"))
+          -- z=: the `omitempty` positions that hold the zero value of their Go type (observed on the typed configuration): left out by the encoder
+          let zs := match kv rest "z" with
+            | some z => if z == "-" then [] else z.splitOn ","
+            | none => []
+          let shownAt := fun (hp : String) =>
+            match o.lookup hp with
+            | some v => if zs.contains hp then "absent" else v
+            | none => "absent"
+          let items := (sortStrs qs).map fun hp => hp ++ ":" ++ shownAt hp     -- sorted by key, like the harness
           (s, ["obs eff " ++ (if items.isEmpty then "-" else ",".intercalate items)])
         | none => (s, ["obs bad-op"])
       | _, _, _, _ => (s, ["obs eff -"])     -- corpus cases without an instance (invalid nested values, defaults probe)
